@@ -276,6 +276,15 @@ func srcLine(m *gen.C14Meta, l c14loc) string {
 // call relation from the reported statement up to the main file.
 func c14Budget(e *Engine, res *EpisodeResult, m *gen.C14Meta) {
 	p := e.Plan
+	var prev *c14loc
+	inLadder := func(l c14loc) int {
+		for i, ld := range m.Ladders {
+			if l.file == ld.File && l.line >= ld.First && l.line < ld.First+ld.Count {
+				return i + 1
+			}
+		}
+		return 0
+	}
 	for n := int64(0); n < 120; n++ {
 		sp := p.Scripts[0]
 		sp.HasLimit, sp.MaxAllocs = true, n
@@ -312,6 +321,18 @@ func c14Budget(e *Engine, res *EpisodeResult, m *gen.C14Meta) {
 			e.violate("C14.location", "allocation budget %d: reported location %s is not a statement line of that file", n, locs[0])
 			return
 		}
+		// allocation ladders: one allocation per line, so one more unit of budget
+		// moves the failure exactly one line down
+		if prev != nil && inLadder(*prev) != 0 && inLadder(*prev) == inLadder(locs[0]) {
+			e.probe("ladderStep")
+			if locs[0].line != prev.line+1 {
+				e.violate("C14.location", "allocation budget %d fails at %s (%q) and budget %d at %s (%q): in a ladder of single-allocation statements the failing statement must move down by exactly one line",
+					n-1, *prev, srcLine(m, *prev), n, locs[0], srcLine(m, locs[0]))
+				return
+			}
+		}
+		l0 := locs[0]
+		prev = &l0
 		for i := 1; i < len(locs); i++ {
 			if locs[i].file == locs[i-1].file && locs[i].line == locs[i-1].line && inlineLine(m, locs[i]) {
 				continue // the frame of a helper literal written and called on this line
